@@ -42,3 +42,9 @@ add("C18",
     "Checks from_json(to_json(ir)) == ir (also type-strictly), to_json idempotence and header(ir) == header(reread ir) for ~10^3 (quick) to ~10^4 (thorough) IRs incl. all intermediate pipeline stages; the two real programs are compared with embossc on a sample.",
     "Trusts: the IR classes' own == (cross-checked by an independent walker over field specs); corpus + generators as the space of 'IRs the front end produces'.",
     "DESIGN.md §4 C18")
+
+add("C01",
+    "differential property-based testing: generated modules (embgen layout generator) compiled by the real compiler and g++, executed on generated buffers (all prefix lengths, garbage/small/boundary contents, parameter values) against an independent reference interpreter (embref) + metamorphic prefix-monotonicity",
+    "Every front-end pass, the back end, the runtime and g++ are in the loop against an oracle that shares no code with them; ~50 modules x ~100 views (quick) to ~650 x ~150 (thorough). Finds wrong offsets/conditions/decodes/size/Ok logic on the explored shapes; says nothing about shapes the generator does not emit (listed in DESIGN §4 C01).",
+    "Trusts: embref as an encoding of the documentation (every disagreement is triaged, DESIGN §3); g++ 12 on x86-64; arrays on truncated buffers are a recorded known finding.",
+    "DESIGN.md §4 C01")
